@@ -13,7 +13,7 @@
 (*     IntMath.tla proves the two families equal on all 8-bit pairs.                                    *)
 (* An event is judged only inside the documented domain of the function (Exp(ev).dom); the driver       *)
 (* deliberately calls on a whole grid and leaves the domain decision to this module.                    *)
-EXTENDS Integers, Sequences, FiniteSets, BitsIM
+EXTENDS Integers, Sequences, FiniteSets, TLC, BitsIM
 
 W == INSTANCE WideIM WITH WB <- 32768, LB <- 15
 
@@ -85,7 +85,9 @@ SmallEv(ev) == /\ Small(ev.w) /\ (Has(ev, "w2") => Small(ev.w2))
 
 BitOps == {"bits", "bswap", "rot", "bitpos", "hton", "ilog2"}
 ArithOps == {"add_sat", "div_sat", "midpoint", "gcd", "lcm", "abs", "idiv", "ipow", "sat_cast", "in_range", "cmp"}
-AllOps == BitOps \cup ArithOps
+\* grouped events: every single-type binary function on one pair ("bin"), the mixed-type ones ("mix")
+GroupOps == {"bin", "mix"}
+AllOps == BitOps \cup ArithOps \cup GroupOps
 
 \* the logged arguments are well-formed values of their types (anything else is a harness error)
 WellFormed(ev) ==
@@ -95,6 +97,9 @@ WellFormed(ev) ==
     /\ (Has(ev, "rw") => ev.rw \in {8, 16, 32, 64} /\ ev.rs \in {0, 1})
     /\ (Has(ev, "y") => IF Has(ev, "w2") THEN ValOK(ev.y, ev.w2, ev.s2) ELSE ValOK(ev.y, ev.w, ev.s))
     /\ (ev.op \in ArithOps \ {"in_range", "cmp", "idiv"} => ValOK(ev.ret, RW(ev), RS(ev)))
+    /\ (ev.op \in GroupOps => ValOK(ev.gcd, RW(ev), RS(ev)) /\ ValOK(ev.lcm, RW(ev), RS(ev)) /\ Len(ev.cmp) = 6)
+    /\ (ev.op = "bin" => /\ ValOK(ev.add_sat, ev.w, ev.s) /\ ValOK(ev.div_sat, ev.w, ev.s) /\ ValOK(ev.midpoint, ev.w, ev.s)
+                         /\ Len(ev.idiv) = 2 /\ (Has(ev, "ipow") => ValOK(ev.ipow, ev.w, ev.s)))
     /\ (ev.op \in {"bits", "rot", "bitpos"} => ev.s = 0)
     /\ (ev.op = "rot" => ev.n \in -100000..100000)
     /\ (ev.op = "bitpos" => ev.p \in 0..(ev.w - 1))
@@ -191,7 +196,22 @@ BswapBad(ev) ==
 \* ilog2(x) for x >= 1: floor(log2 x) = bit_width - 1, returned in the argument's type
 ILog2Bad(ev) ==
     LET w == ev.w b == Word(ev.x, w) pos == ~(ev.s = 1 /\ b[w] = 1) /\ b # Zeros(w) IN
-    IF ~pos THEN "" ELSE Chk("ilog2", ValOK(ev.ret, w, ev.s) /\ Word(ev.ret, w) = BitsOfNat(BitWidth(b) - 1, w))
+    IF ~pos THEN ""
+    ELSE Chk("ilog2", ValOK(ev.ret, w, ev.s) /\ ev.ret = (IF Small(w) THEN BitWidth(b) - 1 ELSE LimbsOfInt(BitWidth(b) - 1, w)))
+
+\* a grouped event is judged function by function through the single-call events it stands for
+Trapped(ev, name) == Has(ev, "traps") /\ \E i \in DOMAIN ev.traps : ev.traps[i] = name
+Sub(ev, op, ret) ==
+    LET base == [op |-> op, w |-> ev.w, s |-> ev.s, x |-> ev.x, y |-> ev.y, ret |-> ret]
+        typed == IF ev.op = "mix" THEN [w2 |-> ev.w2, s2 |-> ev.s2, rw |-> ev.rw, rs |-> ev.rs] @@ base ELSE base
+    IN IF Trapped(ev, op) THEN [trap |-> TRUE] @@ typed ELSE typed
+BinSubs(ev) == <<Sub(ev, "add_sat", ev.add_sat), Sub(ev, "div_sat", ev.div_sat), Sub(ev, "midpoint", ev.midpoint),
+                 Sub(ev, "gcd", ev.gcd), Sub(ev, "lcm", ev.lcm), Sub(ev, "idiv", ev.idiv), Sub(ev, "cmp", ev.cmp)>>
+               \o (IF Has(ev, "ipow") THEN <<Sub(ev, "ipow", ev.ipow)>> ELSE <<>>)
+MixSubs(ev) == <<Sub(ev, "cmp", ev.cmp), Sub(ev, "gcd", ev.gcd), Sub(ev, "lcm", ev.lcm)>>
+Subs(ev) == IF ev.op = "bin" THEN BinSubs(ev) ELSE MixSubs(ev)
+RECURSIVE GroupBadR(_, _)
+GroupBadR(subs, i) == IF i > Len(subs) THEN "" ELSE ArithBad(subs[i]) \o GroupBadR(subs, i + 1)
 
 Bad(ev) ==
     CASE ev.op = "bits" -> BitsBad(ev)
@@ -200,6 +220,7 @@ Bad(ev) ==
       [] ev.op = "hton" -> HtonBad(ev)
       [] ev.op = "bswap" -> BswapBad(ev)
       [] ev.op = "ilog2" -> ILog2Bad(ev)
+      [] ev.op \in GroupOps -> GroupBadR(Subs(ev), 1)
       [] OTHER -> ArithBad(ev)
 
 \* expected values for the deviation report (a record of JSON-able values)
@@ -215,5 +236,8 @@ ExpectedRec(ev) ==
       [] ev.op = "hton" -> [hton |-> Unword(IF ev.le THEN Byteswap(b) ELSE b, ev.s)]
       [] ev.op = "bswap" -> [ret |-> Unword(Byteswap(b), ev.s)]
       [] ev.op = "ilog2" -> [ret |-> BitWidth(b) - 1]
+      [] ev.op \in GroupOps -> [k \in 1..Len(Subs(ev)) |->
+                                  LET e == IF SmallEv(Subs(ev)[k]) THEN ExpI(Subs(ev)[k]) ELSE ExpZ(Subs(ev)[k]) IN
+                                  [f |-> Subs(ev)[k].op, defined |-> e.dom, v |-> e.v]]
       [] OTHER -> [ret |-> (IF SmallEv(ev) THEN ExpI(ev) ELSE ExpZ(ev)).v]
 =============================================================================
